@@ -557,6 +557,85 @@ fn build_input(dic: &JapaneseDictionary, text: &str) -> Result<InputBuffer, Stri
     })
 }
 
+// ---------------------------------------------------------------------------------------------
+// RECYCLED objects.  The property quantifies over texts: what an `InputBuffer` (or the tokenizer + result list pair, which
+// swap two buffers) held BEFORE the text of the case must not show in classes, run lengths, word starts, fallback lengths or
+// candidates.  About a third of the generated cases therefore run on objects that analysed 1-3 earlier texts of other
+// lengths and character widths; the oracles (everything recomputed from the definition files) are the same as on new objects.
+
+/// earlier texts of a recycled object (empty = new objects); `collect[k]`: the result of earlier text `k` was moved into the
+/// (one) `MorphemeList`, i.e. tokenizer and list swapped their two buffers after it
+#[derive(Clone, Debug, Default)]
+pub(crate) struct Hist {
+    pub(crate) texts: Vec<String>,
+    pub(crate) collect: Vec<bool>,
+}
+
+thread_local! {
+    static HIST: std::cell::RefCell<Hist> = std::cell::RefCell::new(Hist::default());
+}
+
+fn set_hist(h: Hist) { HIST.with(|c| *c.borrow_mut() = h); }
+fn cur_hist() -> Hist { HIST.with(|c| c.borrow().clone()) }
+
+/// ` hist=<text>;<text>` (code points, `e` = the empty text, a trailing `*` = result collected); nothing for new objects
+fn hist_token(h: &Hist) -> String {
+    if h.texts.is_empty() { return String::new(); }
+    format!(" hist={}", join(h.texts.iter().enumerate().map(|(k, t)| format!("{}{}",
+        if t.is_empty() { "e".to_string() } else { join(t.chars().map(|c| c as u32), ",") },
+        if h.collect.get(k).copied().unwrap_or(false) { "*" } else { "" })), ";"))
+}
+
+fn hist_words(h: &Hist) -> String {
+    if h.texts.is_empty() { String::new() } else { format!(" [RECYCLED objects, earlier texts {:?}, results collected {:?}]", h.texts, h.collect) }
+}
+
+/// one-byte / two-byte characters that no generated char.def mentions (class DEFAULT: a word start at every character)
+const FILL1: &[char] = &['#', '%', '&', '3', '4', '5', '6', '7', '8', '9'];
+const FILL2: &[char] = &['ñ', 'ö', 'ü', 'Ж'];
+
+/// 1-3 earlier texts chosen against `text`: other lengths, other character widths, so that character starts (word starts)
+/// of the earlier text lie at byte offsets INSIDE the multi-byte characters of `text`, and tables longer and shorter than
+/// the ones `text` needs
+pub(crate) fn gen_hist(rng: &mut Rng, pool: &[char], text: &str) -> Hist {
+    let mut h = Hist::default();
+    let bytes = text.len();
+    for _ in 0..rng.range(1, 3) {
+        let t: String = match rng.below(10) {
+            // one-byte characters over the whole byte length of the text (and a little more / less)
+            0 | 1 | 2 | 3 => { let n = (bytes + rng.below(4)).saturating_sub(rng.below(2)).max(1); (0..n).map(|_| *rng.pick(FILL1)).collect() }
+            // two-byte characters: a word start at every other byte
+            4 => { let n = bytes / 2 + rng.range(1, 2); let odd = rng.chance(1, 2); let mut s: String = if odd { "#".into() } else { String::new() }; s.extend((0..n).map(|_| *rng.pick(FILL2))); s }
+            // the same characters one byte further
+            5 => format!("{}{}", rng.pick(FILL1), text),
+            // the text without its first character / another text over the same pool
+            6 => text.chars().skip(1).collect(),
+            7 | 8 => { let n = rng.range(1, 12); (0..n).map(|_| *rng.pick(pool)).collect() }
+            _ => String::new(),
+        };
+        h.texts.push(t);
+        h.collect.push(rng.chance(2, 3));
+    }
+    h
+}
+
+/// the buffer of the case: new, or one `InputBuffer` that held the earlier texts (reset + rewrite + build each) before `text`
+fn build_input_hist(dic: &JapaneseDictionary, hist: &Hist, text: &str) -> Result<InputBuffer, String> {
+    if hist.texts.is_empty() { return build_input(dic, text); }
+    catch(|| {
+        let mut ib = InputBuffer::new();
+        for t in hist.texts.iter().map(|s| s.as_str()).chain(std::iter::once(text)) {
+            ib.reset().push_str(t);
+            ib.start_build().expect("start_build");
+            for p in dic.input_text_plugins() {
+                p.rewrite(&mut ib).expect("rewrite");
+            }
+            ib.build(dic.grammar()).expect("build");
+        }
+        ib
+    })
+}
+
 fn created_of(mask: u64) -> CreatedWords {
     let mut c = CreatedWords::empty();
     for b in 0..64 {
@@ -639,7 +718,7 @@ fn text_tokens(d: &Defs, chars: &[char]) -> String {
         _ => format!(" variant={}", if source_is_forward() { "fwd" } else { "bwd" }),
     };
     let b = if source_chains_bow_ban() { " bow=fix" } else { "" };
-    format!("text={} def={}{}{}", join(chars.iter().map(|c| *c as u32), ","), hex(d.char_def.as_bytes()), v, b)
+    format!("text={} def={}{}{}{}", join(chars.iter().map(|c| *c as u32), ","), hex(d.char_def.as_bytes()), v, b, hist_token(&cur_hist()))
 }
 
 fn label_runs(cats: &[u32], observed: &[usize]) -> &'static str {
@@ -655,22 +734,41 @@ fn case_buf(run: &mut Run, ctx: &Ctx, idx: usize, d: &Defs, text: &str) {
     };
     let chars: Vec<char> = text.chars().collect();
     let payload = text_tokens(d, &chars);
-    let ib = match build_input(&dic, text) {
+    let hist = cur_hist();
+    run.bump(if hist.texts.is_empty() { "buf:objects:new".to_string() } else { format!("buf:objects:recycled-after-{}-texts", hist.texts.len()) }.as_str());
+    let ib = match build_input_hist(&dic, &hist, text) {
         Ok(x) => x,
-        Err(_) => { run.case(idx, "buf", &payload, "PANIC", false); run.fail(idx, "buf:panic", "InputBuffer::build panicked"); return; }
+        Err(_) => { run.case(idx, "buf", &payload, "PANIC", false); run.fail(idx, "buf:panic", &format!("InputBuffer::build panicked{}", hist_words(&hist))); return; }
     };
-    let t = ib.verif_tables();
     let n = chars.len();
-    let cont: Vec<usize> = (0..n).map(|i| ib.cat_continuous_len(i)).collect();
-    let bow: String = (0..text.len()).map(|b| if ib.can_bow(b) { '1' } else { '0' }).collect();
-    let wcl: Vec<usize> = (0..n).map(|i| ib.get_word_candidate_length(i)).collect();
-    let cats: Vec<u32> = (0..n).map(|i| ib.cat_at_char(i).bits()).collect();
+    // the accessors index the tables of the (possibly recycled) buffer: a panic there is the implementation's, not the harness's
+    let obs = catch(|| {
+        let t = ib.verif_tables();
+        let cont: Vec<usize> = (0..n).map(|i| ib.cat_continuous_len(i)).collect();
+        let bow: String = (0..text.len()).map(|b| if ib.can_bow(b) { '1' } else { '0' }).collect();
+        let wcl: Vec<usize> = (0..n).map(|i| ib.get_word_candidate_length(i)).collect();
+        let cats: Vec<u32> = (0..n).map(|i| ib.cat_at_char(i).bits()).collect();
+        // `can_bow` at the first byte of every character (no input-text plugin here: the offsets are those of `text`)
+        let bowc: Vec<bool> = text.char_indices().map(|(b, _)| ib.can_bow(b)).collect();
+        (t, cont, bow, wcl, cats, bowc)
+    });
+    let starts: Vec<usize> = text.char_indices().map(|(b, _)| b).collect();
+    let (t, cont, bow, wcl, cats, bowc) = match obs {
+        Ok(x) => x,
+        Err(p) => {
+            run.case(idx, "buf", &payload, "PANIC", false);
+            run.fail(idx, "buf:panic", &format!("text {:?}: reading classes / run lengths / can_bow / get_word_candidate_length of the built buffer panicked: {}", text, p));
+            return;
+        }
+    };
     let ans = format!("ok cats={} cont={} bow={} wcl={}", join(cats.iter(), ","), join(cont.iter(), ","), bow, join(wcl.iter(), ","));
     let multi = cats.iter().any(|c| c.count_ones() > 1);
     run.case(idx, "buf", &payload, &ans, multi && n >= 3);
     run.bump(if n > 64 { "buf:long" } else { "buf:short" });
     if multi { run.bump("buf:multi-class"); }
-    debug_assert_eq!(t.mod_cat, cats);
+    if t.mod_cat != cats {
+        run.fail(idx, "cats:table", &format!("text {:?}: the class table of the buffer {:?} is not the classes of its characters {:?}", text, t.mod_cat, cats));
+    }
     // oracle 1: classes are those the definition declares
     let want_cats: Vec<u32> = chars.iter().map(|&c| d.cat_of(c)).collect();
     if want_cats != cats {
@@ -714,17 +812,17 @@ fn case_buf(run: &mut Run, ctx: &Ctx, idx: usize, d: &Defs, text: &str) {
     };
     let mut bad: Vec<usize> = vec![];
     for i in 0..n {
-        if ib.can_bow(t.mod_c2b[i]) != doc_bow(i) { bad.push(i); }
+        if bowc[i] != doc_bow(i) { bad.push(i); }
     }
     if !bad.is_empty() {
         // the one known deviation: after two or more consecutive NOOOVBOW2 characters the second one "uses up" the ban
-        let chain = bad.iter().all(|&i| i >= 2 && cats[i - 1] & NOBOW2 != 0 && cats[i - 2] & NOBOW2 != 0 && ib.can_bow(t.mod_c2b[i]));
+        let chain = bad.iter().all(|&i| i >= 2 && cats[i - 1] & NOBOW2 != 0 && cats[i - 2] & NOBOW2 != 0 && bowc[i]);
         run.bump("buf:word-start-differs-from-documented-rule");
         run.fail(idx, if chain { "bow:consecutive-NOOOVBOW2" } else { "bow:other" },
             &format!("text {:?} classes {:?}: can_bow differs from the documented rule at characters {:?}", text, cats, bad));
     }
     for b in 0..text.len() {
-        if !t.mod_c2b.contains(&b) && ib.can_bow(b) {
+        if !starts.contains(&b) && bow.as_bytes()[b] == b'1' {
             run.fail(idx, "bow:inside-character", &format!("can_bow({}) is true inside a character", b));
             break;
         }
@@ -732,7 +830,7 @@ fn case_buf(run: &mut Run, ctx: &Ctx, idx: usize, d: &Defs, text: &str) {
     // oracle 4: the fallback length reaches the next permissible word start
     for i in 0..n {
         let mut e = i + 1;
-        while e < n && !ib.can_bow(t.mod_c2b[e]) { e += 1; }
+        while e < n && !bowc[e] { e += 1; }
         if wcl[i] != e - i {
             run.fail(idx, "wcl", &format!("get_word_candidate_length({}) = {}, next word start is {} characters away", i, wcl[i], e - i));
             break;
@@ -882,14 +980,27 @@ fn case_prov_q(run: &mut Run, ctx: &Ctx, idx: usize, d: &Defs, text: &str, kind:
         run.fail(idx, "setup:accepted-malformed", &format!("a malformed definition was accepted: char.def {:?} unk.def {:?}", mecab_def_text(d), d.unk_def));
         return;
     }
-    let ib = match build_input(&dic, text) {
+    let hist = cur_hist();
+    run.bump(if hist.texts.is_empty() { "prov:objects:new".to_string() } else { format!("prov:objects:recycled-after-{}-texts", hist.texts.len()) }.as_str());
+    let ib = match build_input_hist(&dic, &hist, text) {
         Ok(x) => x,
         Err(_) => { run.case(idx, "prov", &payload, "PANIC", false); return; }
     };
-    let cats: Vec<u32> = (0..n).map(|i| ib.cat_at_char(i).bits()).collect();
-    let cont: Vec<usize> = (0..n).map(|i| ib.cat_continuous_len(i)).collect();
-    let t = ib.verif_tables();
-    let bow: Vec<bool> = (0..n).map(|i| ib.can_bow(t.mod_c2b[i])).collect();
+    let obs = catch(|| {
+        let cats: Vec<u32> = (0..n).map(|i| ib.cat_at_char(i).bits()).collect();
+        let cont: Vec<usize> = (0..n).map(|i| ib.cat_continuous_len(i)).collect();
+        let t = ib.verif_tables();
+        let bow: Vec<bool> = (0..n).map(|i| ib.can_bow(t.mod_c2b[i])).collect();
+        (cats, cont, bow)
+    });
+    let (cats, cont, bow) = match obs {
+        Ok(x) => x,
+        Err(p) => {
+            run.case(idx, "prov", &payload, "PANIC", false);
+            run.fail(idx, "buf:panic", &format!("text {:?}: reading classes / run lengths / can_bow of the built buffer panicked: {}", text, p));
+            return;
+        }
+    };
     let spec = spec_runs(&cats);
     if matches!(kind, Prov::M) {
         // distribution: characters with several classes whose behaviour lines differ in GROUP (the 1..n limit is per class)
@@ -908,6 +1019,7 @@ fn case_prov_q(run: &mut Run, ctx: &Ctx, idx: usize, d: &Defs, text: &str, kind:
         }
     }
     let plugin = &dic.oov_provider_plugins()[0];
+    let prov_fail0 = run.failures.len();
     let mut answers = vec![];
     let mut produced = 0usize;
     for (off, mask, ends) in &queries {
@@ -974,6 +1086,9 @@ fn case_prov_q(run: &mut Run, ctx: &Ctx, idx: usize, d: &Defs, text: &str, kind:
     run.bump(&format!("prov:{}", kname));
     if n > 64 { run.bump("prov:long"); }
     run.case(idx, "prov", &payload, &format!("ok {}", answers.join(";")), produced > 0);
+    // the oracle ran before the line of this case was recorded: its failures name THIS line in the replay
+    let line = format!("{} prov idx={} {}", run.prop, idx, payload);
+    for f in run.failures[prov_fail0..].iter_mut() { if f.index == idx { f.line = line.clone(); } }
 }
 
 pub(crate) struct LatCase {
@@ -1045,6 +1160,30 @@ fn case_lat(run: &mut Run, ctx: &Ctx, idx: usize, d: &Defs, text: &str, lc: &Lat
     let n = chars.len();
     let payload = format!("{} provs={} {} lex={}", text_tokens(d, &chars), kinds.join("."), ptoks.join(" "), lex_tok);
     let mut tok = StatefulTokenizer::new(&spy, Mode::C);
+    let mut ml = MorphemeList::empty(&spy);
+    // RECYCLED objects: the one tokenizer (and the one result list it swaps buffers with) analysed the earlier texts first
+    let hist = cur_hist();
+    let mut warm_ok = true;
+    for (k, h) in hist.texts.iter().enumerate() {
+        tok.reset().push_str(h);
+        match catch(|| tok.do_tokenize()) {
+            Ok(Ok(())) => {
+                if hist.collect.get(k).copied().unwrap_or(false) && ml.collect_results(&mut tok).is_err() { warm_ok = false; break; }
+            }
+            // an analysis that ended in an error (no fallback provider): `reset` recycles the objects all the same
+            Ok(Err(_)) => { run.bump("lat:earlier-text-ended-in-error"); }
+            Err(_) => { warm_ok = false; break; }
+        }
+    }
+    if !warm_ok {
+        // the earlier text is not the subject of the case: the case runs on new objects
+        run.bump("lat:earlier-text-panicked:new-objects-used");
+        tok = StatefulTokenizer::new(&spy, Mode::C);
+        ml = MorphemeList::empty(&spy);
+    }
+    run.bump(if hist.texts.is_empty() { "lat:objects:new".to_string() } else {
+        format!("lat:objects:recycled-after-{}-texts:{}-collected", hist.texts.len(), hist.collect.iter().filter(|c| **c).count()) }.as_str());
+    spy.log.lock().unwrap_or_else(|e| e.into_inner()).clear();
     tok.reset().push_str(text);
     let r = catch(|| tok.do_tokenize());
     let fallback_last = matches!(lc.provs.last(), Some(Prov::S));
@@ -1245,7 +1384,6 @@ fn case_lat(run: &mut Run, ctx: &Ctx, idx: usize, d: &Defs, text: &str, lc: &Lat
                 }
             }
             // ---- morphemes: OOV fields
-            let mut ml = MorphemeList::empty(&spy);
             if let Err(e) = ml.collect_results(&mut tok) {
                 run.fail(idx, "collect", &format!("collect_results failed: {:?}", e));
                 return;
@@ -1386,6 +1524,19 @@ fn zw_lat(rng: &mut Rng, d: &Defs) -> LatCase {
         lex.push(Row::simple(&w, small_id(rng) as i32, small_id(rng) as i32, rng.below(9000) as i32 - 500, rng.below(POS.len())));
     }
     LatCase { provs, sp: gen_simple(rng), rp: gen_regex(rng, &['a', 'b', 'Ω', 'я'], false), lex, normalise: false }
+}
+
+/// small kana = KATAKANA NOOOVBOW, combining mark = ALL NOOOVBOW, joiner = ALL NOOOVBOW2 (the shipped classes), U+3091 without any
+/// class line (DEFAULT, no behaviour line: only the fallback provider makes a candidate there)
+fn recycle_defs() -> Defs {
+    let mut d = Defs::default();
+    d.pool = vec!['ゑ', 'ァ', 'a', '\u{301}', '\u{200d}'];
+    d.assign = vec![('a', 32), ('ァ', 128 | NOBOW), ('\u{301}', ALLM | NOBOW), ('\u{200d}', ALLM | NOBOW2)];
+    d.char_def = "0x0061..0x007A ALPHA\n0x30A1 KATAKANA NOOOVBOW\n0x0301 ALL NOOOVBOW\n0x200D ALL NOOOVBOW2\nALPHA 1 1 0\n".to_string();
+    d.infos = vec![Info { cat: 32, invoke: true, group: true, length: 0 }];
+    d.unks = vec![Unk { cat: 32, l: 1, r: 1, cost: 100, pos: 0 }];
+    d.unk_def = format!("ALPHA,1,1,100,{}\n", POS[0].join(","));
+    d
 }
 
 fn zw_fixed_defs() -> Defs {
@@ -1657,7 +1808,11 @@ the definition files (class keys as NAME|NAME, NAME|0x.. hex literals, bare hex 
 leading/trailing blanks, extra columns, CRLF, no final newline, indented comments; one in five with ONE malformed line out of 20 kinds that must \
 be rejected), the three shapes of the plugin settings (explicit default names, keys omitted, other file names with decoy behaviour lines in the \
 grammar's char.def), 6x4 and 4x6 connection matrices, characters with class bits that have no name (hex literal in a range line); a failing \
-lattice run (Err/panic) answers with the provide_oov calls made before the failure. \
+lattice run (Err/panic) answers with the provide_oov calls made before the failure. RECYCLED objects: in about a third of the generated \
+cases (and directed 36-39) the InputBuffer of buf/prov and the StatefulTokenizer + MorphemeList pair of lat (two swapped buffers) held 1-3 \
+earlier texts before the text of the case - one-byte or two-byte DEFAULT characters over the byte length of the text (a word start at every \
+byte / every other byte, i.e. inside the multi-byte NOOOVBOW/NOOOVBOW2/ALL characters of the text), the text one byte further, its tail, \
+other pool texts, the empty text; the case line carries them as hist= and the expected answer does not depend on them; oracles unchanged. \
 non-trivial = multi-class text of >=3 characters (buf), some node produced (prov), some OOV node in the lattice (lat); distinct by full line".into();
     let wd = Workdir::new_legacy("c13");
     let system = build_dic(&fixed_rows(), 77);
@@ -1674,6 +1829,12 @@ non-trivial = multi-class text of >=3 characters (buf), some node produced (prov
     for idx in 0..n {
         if !run.wants(idx) { continue; }
         let mut rng = Rng::for_case(run.opts.seed, idx);
+        // RECYCLED objects in about a third of the generated cases; the history comes from a generator of its own, so
+        // the texts and definitions of the cases are those of the rounds before
+        let mut hrng = Rng::for_case(run.opts.seed ^ 0x1357_9bdf_2468_ace0, idx);
+        let recycled = idx >= 40 && hrng.chance(1, 3);
+        set_hist(Hist::default());
+        let fail0 = run.failures.len();
         match idx {
             // ---- directed cases
             0 => case_buf(run, &ctx, idx, &d11_defs(), "👍🏻漢"),
@@ -1762,6 +1923,22 @@ non-trivial = multi-class text of >=3 characters (buf), some node produced (prov
                 // finding NEW-C13-1: the shipped line `KANJI 0 0 2` on a text that ENDS in a kanji - the one-character candidate twice
                 case_prov(run, &ctx, idx, &d11_defs(), if idx == 34 { "漢" } else { "👍漢漢" }, Prov::M, &sp0, &rp0, &mut rng, &[])
             }
+            36..=39 => {
+                // RECYCLED objects (seeded change C13e: a table `reset` does not clear + a byte-wise scan of it): after a
+                // text of one-byte characters (a word start at every byte) the same buffer holds a text whose NOOOVBOW /
+                // NOOOVBOW2 / class-ALL characters are multi-byte: the fallback candidate of U+3091 still spans the small
+                // kana / the combining mark / the joiner and its successor
+                let d = recycle_defs();
+                let lc = LatCase { provs: vec![Prov::M, Prov::S], sp: SimpleP { l: 2, r: 3, cost: 5000, pos: 3 }, rp: rp0.clone(), lex: fixed_rows(), normalise: false };
+                match idx {
+                    // the clause itself: the fallback candidate reaches to the next permissible word start
+                    36 => { set_hist(Hist { texts: vec!["1234567890".into()], collect: vec![false] }); case_prov(run, &ctx, idx, &d, "ゑァゑ", Prov::S, &lc.sp, &rp0, &mut rng, &[]) }
+                    // tokenizer and list swap two buffers: the stale table is the one of the last-but-one analysis
+                    37 => { set_hist(Hist { texts: vec!["1234567890".into(), "#".into()], collect: vec![true, true] }); case_lat(run, &ctx, idx, &d, "ゑァゑ", &lc) }
+                    38 => { set_hist(Hist { texts: vec!["%%%%%%%%%%%%%%%%%%%%%%%%".into()], collect: vec![false] }); case_lat(run, &ctx, idx, &d, "ゑ\u{301}ゑ\u{200d}ゑァa", &lc) }
+                    _ => { set_hist(Hist { texts: vec!["1234567890".into()], collect: vec![false] }); case_buf(run, &ctx, idx, &d, "ゑァゑ") }
+                }
+            }
             // ---- generated cases
             _ => {
                 let kind20 = idx % 20;
@@ -1772,6 +1949,7 @@ non-trivial = multi-class text of >=3 characters (buf), some node produced (prov
                     let d = noise_defs(&mut rng, d0);
                     let text = gen_text(&mut rng, &d.pool, &[]);
                     if !d.note.is_empty() { run.bump(&format!("buf:noise:{}", d.note)); }
+                    if recycled { set_hist(gen_hist(&mut hrng, &d.pool, &text)); }
                     if !d.broken { case_buf(run, &ctx, idx, &d, &text); }
                 } else if kind20 == 15 || kind20 == 16 {
                     // the syntax of the two files, settings shapes, non-square matrices
@@ -1787,10 +1965,12 @@ non-trivial = multi-class text of >=3 characters (buf), some node produced (prov
                     let text = gen_text(&mut rng, &d.pool, &[]);
                     let sp = gen_simple(&mut rng);
                     let rp = gen_regex(&mut rng, &d.pool, true);
+                    if recycled { set_hist(gen_hist(&mut hrng, &d.pool, &text)); }
                     case_prov(run, &ctx, idx, &d, &text, Prov::M, &sp, &rp, &mut rng, &[]);
                 } else if kind20 == 17 {
                     let (d, text) = mixed_defs(&mut rng);
                     run.bump("prov:mixed-group-definitions");
+                    if recycled { set_hist(gen_hist(&mut hrng, &d.pool, &text)); }
                     case_prov(run, &ctx, idx, &d, &text, Prov::M, &sp0, &rp0, &mut rng, &[]);
                 } else if kind20 == 18 {
                     if rng.chance(1, 2) {
@@ -1799,6 +1979,7 @@ non-trivial = multi-class text of >=3 characters (buf), some node produced (prov
                         if !lc.provs.iter().any(|p| matches!(p, Prov::M)) { lc.provs.insert(0, Prov::M); }
                         lc.normalise = false;
                         run.bump("lat:mixed-group-definitions");
+                        if recycled { set_hist(gen_hist(&mut hrng, &d.pool, &text)); }
                         case_lat(run, &ctx, idx, &d, &text, &lc);
                     } else {
                         let d0 = gen_defs(&mut rng, false, false);
@@ -1809,6 +1990,7 @@ non-trivial = multi-class text of >=3 characters (buf), some node produced (prov
                         run.bump("lat:noise-definitions");
                         let text = gen_text(&mut rng, &d.pool, &[]);
                         if d.must_fail { run.bump("lat:noise:malformed"); }
+                        if recycled { set_hist(gen_hist(&mut hrng, &d.pool, &text)); }
                         case_lat(run, &ctx, idx, &d, &text, &lc);
                     }
                 } else if kind == 9 {
@@ -1816,10 +1998,12 @@ non-trivial = multi-class text of >=3 characters (buf), some node produced (prov
                     let lc = zw_lat(&mut rng, &d);
                     let text = zw_text(&mut rng);
                     run.bump("lat:joiner-texts");
+                    if recycled { set_hist(gen_hist(&mut hrng, &d.pool, &text)); }
                     case_lat(run, &ctx, idx, &d, &text, &lc);
                 } else if kind < 3 {
                     let d = gen_defs(&mut rng, false, false);
                     let text = gen_text(&mut rng, &d.pool, &[]);
+                    if recycled { set_hist(gen_hist(&mut hrng, &d.pool, &text)); }
                     case_buf(run, &ctx, idx, &d, &text);
                 } else if kind < 7 {
                     let d = gen_defs(&mut rng, false, true);
@@ -1827,6 +2011,7 @@ non-trivial = multi-class text of >=3 characters (buf), some node produced (prov
                     let sp = gen_simple(&mut rng);
                     let rp = gen_regex(&mut rng, &d.pool, true);
                     let k = match rng.below(5) { 0 | 1 => Prov::M, 2 => Prov::S, _ => Prov::R };
+                    if recycled { set_hist(gen_hist(&mut hrng, &d.pool, &text)); }
                     case_prov(run, &ctx, idx, &d, &text, k, &sp, &rp, &mut rng, &[]);
                 } else {
                     let norm = rng.chance(1, 3);
@@ -1834,9 +2019,14 @@ non-trivial = multi-class text of >=3 characters (buf), some node produced (prov
                     let mut lc = gen_lat(&mut rng, &d);
                     lc.normalise = norm;
                     let text = gen_text(&mut rng, &d.pool, if norm { NORMALISED } else { &[] });
+                    if recycled { set_hist(gen_hist(&mut hrng, &d.pool, &text)); }
                     case_lat(run, &ctx, idx, &d, &text, &lc);
                 }
             }
         }
+        // a failure on recycled objects names the earlier texts (the case line carries them as `hist=`)
+        let hw = hist_words(&cur_hist());
+        if !hw.is_empty() { for f in run.failures[fail0..].iter_mut() { f.what.push_str(&hw); } }
+        set_hist(Hist::default());
     }
 }
